@@ -19,6 +19,9 @@ type c05bScenario struct {
 	Name    string
 	Prefill int        // sequential puts of 30 kB filler items before the threads start
 	Threads [][]c05bOp // per thread: its puts, in order
+	// Observes > 0: an observer thread that, whenever the explorer picks it, scans the database (one
+	// step): the persisted usage record must not be below the bytes held - at that moment too
+	Observes int
 }
 
 type c05bOp struct {
@@ -27,13 +30,15 @@ type c05bOp struct {
 }
 
 var c05bScenarios = []c05bScenario{
-	{"two-puts-distinct-ids", 1, [][]c05bOp{{{"uni", 1000}}, {{"lo1", 2000}}}},
-	{"two-puts-same-id", 1, [][]c05bOp{{{"uni", 1000}}, {{"uni", 2000}}}},
-	{"both-cross-capacity", 32, [][]c05bOp{{{"uni", 30_000}}, {{"lo1", 30_000}}}},
-	{"overwrite-races-prune", 32, [][]c05bOp{{{"f3", 30_000}}, {{"lo256", 30_000}}}},
-	{"two-puts-each", 1, [][]c05bOp{{{"uni", 1000}, {"lo1", 10}}, {{"mid", 2000}, {"uni", 30}}}},
-	{"three-putters", 1, [][]c05bOp{{{"uni", 1000}}, {{"lo1", 2000}}, {{"uni", 3000}}}},
-	{"three-cross-capacity", 32, [][]c05bOp{{{"uni", 30_000}}, {{"lo1", 30_000}}, {{"mid", 30_000}}}},
+	{"two-puts-distinct-ids", 1, [][]c05bOp{{{"uni", 1000}}, {{"lo1", 2000}}}, 0},
+	{"two-puts-same-id", 1, [][]c05bOp{{{"uni", 1000}}, {{"uni", 2000}}}, 0},
+	{"both-cross-capacity", 32, [][]c05bOp{{{"uni", 30_000}}, {{"lo1", 30_000}}}, 0},
+	{"overwrite-races-prune", 32, [][]c05bOp{{{"f3", 30_000}}, {{"lo256", 30_000}}}, 0},
+	{"two-puts-each", 1, [][]c05bOp{{{"uni", 1000}, {"lo1", 10}}, {{"mid", 2000}, {"uni", 30}}}, 0},
+	{"three-putters", 1, [][]c05bOp{{{"uni", 1000}}, {{"lo1", 2000}}, {{"uni", 3000}}}, 0},
+	{"three-cross-capacity", 32, [][]c05bOp{{{"uni", 30_000}}, {{"lo1", 30_000}}, {{"mid", 30_000}}}, 0},
+	{"two-puts-observed", 1, [][]c05bOp{{{"uni", 1000}}, {{"lo1", 2000}}}, 2},
+	{"crossing-put-observed", 33, [][]c05bOp{{{"uni", 30_000}}}, 3},
 }
 
 type c05bCase struct {
@@ -81,11 +86,34 @@ func c05bRun(r *mc.Report, sc *c05bScenario, c *mc.Ctx) (outcome string) {
 				}
 			})
 		}
+		type obsT struct {
+			held, rec uint64
+			has       bool
+			n         int
+		}
+		var seen []obsT
+		if sc.Observes > 0 && freeRuns == 0 {
+			s.spawn("OBS", func() {
+				for i := 0; i < sc.Observes; i++ {
+					s.Gate("observe")
+					s.Atomically(func() {
+						items, rec, has := env.scan()
+						seen = append(seen, obsT{held(items), rec, has, len(items)})
+					})
+				}
+			})
+		}
 		ok, why := s.run(c, 2000)
 		trace = s.Trace
 		if !ok {
 			viol("puts-return", "ContentStorage.Put", why)
 			return
+		}
+		for i, o := range seen {
+			if (o.has && o.rec < o.held) || (!o.has && o.held > 0) {
+				viol("usage-never-under-reports", "persisted record (observed during the puts)", fmt.Sprintf("observation %d: the persisted usage record says %d (present=%v) while %d bytes in %d items are held", i+1, o.rec, o.has, o.held, o.n))
+				break
+			}
 		}
 		quiesce()
 		items, rec, hasRec := env.scan()
